@@ -37,13 +37,21 @@ def hexVal? (s : String) : Option Nat :=
       else if 'A' ≤ c ∧ c ≤ 'F' then some (n * 16 + (c.toNat - 'A'.toNat + 10))
       else none) (some 0)
 
-def hexBytes? : List Char → Option (List Nat)
-  | [] => some []
-  | a :: b :: r => do
-    let n ← hexVal? (String.ofList [a, b])
-    let rest ← hexBytes? r
-    pure (n :: rest)
-  | _ => none
+def hexDigit? (c : Char) : Option Nat :=
+  if '0' ≤ c ∧ c ≤ '9' then some (c.toNat - '0'.toNat)
+  else if 'a' ≤ c ∧ c ≤ 'f' then some (c.toNat - 'a'.toNat + 10)
+  else if 'A' ≤ c ∧ c ≤ 'F' then some (c.toNat - 'A'.toNat + 10)
+  else none
+
+def hexBytesAux : List Char → List Nat → Option (List Nat)
+  | [], acc => some acc.reverse
+  | a :: b :: r, acc =>
+    match hexDigit? a, hexDigit? b with
+    | some x, some y => hexBytesAux r ((x * 16 + y) :: acc)
+    | _, _ => none
+  | _, _ => none
+
+def hexBytes? (cs : List Char) : Option (List Nat) := hexBytesAux cs []
 
 inductive Piece where
   | conc (bs : List Nat)
